@@ -32,6 +32,9 @@ use std::{
 };
 
 use fnv::FnvHashMap;
+#[cfg(libp2p_verif)]
+use libp2p_core::verif_clock::Instant;
+#[cfg(not(libp2p_verif))]
 use web_time::Instant;
 
 struct ExpiringElement<Element> {
